@@ -11,7 +11,7 @@
      plain                the texts of the references contain no '$' (flat theorem only)
      anchored             the token list cannot shrink to one bare reference
      inert                a value without '$' and without expandedValue nodes *)
-From Verif Require Import Common.Base C12.Model C12.Proofs1 C12.Proofs2 C12.Proofs3 C12.Proofs4 C12.Proofs5 C12.Proofs6 C12.Proofs7 C12.Proofs8 C12.Proofs9 C12.Proofs10 C12.Tie Generated.C12Tables.
+From Verif Require Import Common.Base C12.Model C12.Proofs1 C12.Proofs2 C12.Proofs3 C12.Proofs4 C12.Proofs5 C12.Proofs6 C12.Proofs7 C12.Proofs8 C12.Proofs9 C12.Proofs10 C12.Tie Generated.C12Tables C12.Harness C12.Clauses.
 From Coq Require Import Ascii.
 
 (* ================= clause 1: recursive right-biased merge ================= *)
@@ -122,7 +122,7 @@ Print Assumptions dollar_dollar.
 (* CENTRAL: on every well-formed token string resolution is the token-by-token meaning:
    char -> itself, "$$" -> "$", lone '$' -> "$", "${name}" -> the provider's text *)
 Theorem expansion_refines_tokens : forall def retrieve val ts,
-  wf def retrieve val ts -> plain val ts -> anchored val ts -> nrefs ts < 1000 ->
+  wf def retrieve val ts -> plain val ts -> anchored val ts -> nrefs ts <= max_expansions ->
   resolve_string def retrieve (flatten ts) = Ok (CStr (sem val ts)).
 Proof. exact tokens_main. Qed.
 Print Assumptions expansion_refines_tokens.
@@ -137,20 +137,23 @@ Print Assumptions expansion_refines_tokens.
    make the value typed) — inputs made of references only are covered. *)
 Theorem expansion_refines_tokens_nested : forall def retrieve txt d ts,
   wf def retrieve (nval txt) ts -> good def retrieve txt d ts -> nanchored txt d ts ->
-  cost txt d ts < 1000 ->
+  cost txt d ts <= max_expansions ->
   resolve_string def retrieve (flatten ts) = Ok (CStr (mean txt d ts)).
 Proof. exact nested_main. Qed.
 Print Assumptions expansion_refines_tokens_nested.
 
-(* the measure bounds the rounds: fuel cost+1 is enough, whatever the 1000 of the code *)
+(* the measure bounds the rounds AND the work: cost+1 rounds are enough and exactly [cost] expansions are counted *)
 Theorem nested_rounds_bounded_by_cost : forall def retrieve txt d ts,
   wf def retrieve (nval txt) ts -> good def retrieve txt d ts -> nanchored txt d ts ->
-  exists s, expand_rec def retrieve (S (cost txt d ts)) (CStr (flatten ts)) = Ok (CStr s) /\
+  cost txt d ts <= max_expansions ->
+  exists s, expand_rec def retrieve (S (cost txt d ts)) 0 (CStr (flatten ts)) = Ok (CStr s) /\
             unescape s = mean txt d ts.
 Proof. exact nested_rounds_within_cost. Qed.
 Print Assumptions nested_rounds_bounded_by_cost.
 
-(* ---- values with structure (lists, maps, expandedValue): generic, no assumption on the members ---------- *)
+(* ---- values with structure (lists, maps, expandedValue): generic, no assumption on the members ----------
+   stated on the ROUNDS ([expand_rec_old f] = iterate expandValue at most f times, no budget); [rounds_within_budget]
+   carries a run of rounds to expandValueRecursively when what the rounds spend ([total_spent]) fits the budget *)
 
 (* a round that reports "unchanged" has produced a fixpoint of expandValue *)
 Theorem unchanged_round_is_fixpoint : forall def retrieve v v',
@@ -161,29 +164,36 @@ Print Assumptions unchanged_round_is_fixpoint.
 (* a list resolves member by member: each member ends where it would end on its own (they only share the
    round counter) *)
 Theorem list_value_memberwise : forall def retrieve f xs ys,
-  Forall2 (fun x y => expand_rec def retrieve (S f) x = Ok y) xs ys ->
-  expand_rec def retrieve (S f) (CList xs) = Ok (CList ys).
+  Forall2 (fun x y => expand_rec_old def retrieve (S f) x = Ok y) xs ys ->
+  expand_rec_old def retrieve (S f) (CList xs) = Ok (CList ys).
 Proof. exact list_memberwise. Qed.
 Print Assumptions list_value_memberwise.
 
 Theorem map_value_memberwise : forall def retrieve f m m',
   Forall2 (entry_ok def retrieve (S f)) m m' ->
-  expand_rec def retrieve (S f) (CMap m) = Ok (CMap m').
+  expand_rec_old def retrieve (S f) (CMap m) = Ok (CMap m').
 Proof. exact map_memberwise. Qed.
 Print Assumptions map_value_memberwise.
 
 (* the typed value and the original text of an expandedValue resolve independently *)
 Theorem expanded_value_halves_independent : forall def retrieve f x o y o',
-  structured x = true -> expand_rec def retrieve (S f) x = Ok y -> str_rec def retrieve (S f) o = Some o' ->
-  expand_rec def retrieve (S f) (CExp x o) = Ok (CExp y o').
+  structured x = true -> expand_rec_old def retrieve (S f) x = Ok y -> str_rec def retrieve (S f) o = Some o' ->
+  expand_rec_old def retrieve (S f) (CExp x o) = Ok (CExp y o').
 Proof. exact exp_parallel. Qed.
 Print Assumptions expanded_value_halves_independent.
+
+Theorem rounds_within_budget : forall def retrieve f fuel used v y,
+  expand_rec_old def retrieve f v = Ok y -> used + total_spent def retrieve f v <= max_expansions -> f <= fuel ->
+  expand_rec def retrieve fuel used v = Ok y.
+Proof. exact bridge. Qed.
+Print Assumptions rounds_within_budget.
 
 Theorem whole_value_structured : forall def retrieve n ret o y o',
   name_ok n = true -> ref_ok def n = true ->
   expand_uri def retrieve (ref_text n) = Ok ret -> as_string ret = Some o ->
   structured (r_raw ret) = true ->
-  expand_rec def retrieve 999 (r_raw ret) = Ok y -> str_rec def retrieve 999 o = Some o' ->
+  expand_rec_old def retrieve 999 (r_raw ret) = Ok y -> str_rec def retrieve 999 o = Some o' ->
+  1 + total_spent def retrieve 999 (CExp (r_raw ret) o) <= max_expansions ->
   resolve_string def retrieve (ref_text n) = Ok (CExp (escape_dollars y) (unescape o')).
 Proof. exact Proofs8.whole_value_structured. Qed.
 Print Assumptions whole_value_structured.
@@ -197,6 +207,7 @@ Theorem whole_value_list_of_token_strings : forall def retrieve txt n ret d tss 
   r_raw ret = CList (map (fun ts => CStr (flatten ts)) tss) ->
   as_string ret = Some (flatten tso) ->
   Forall (tok_ok def retrieve txt d) tss -> tok_ok def retrieve txt d tso ->
+  1 + csum txt d tss + cost txt d tso <= max_expansions ->
   resolve_string def retrieve (ref_text n)
   = Ok (CExp (CList (map (fun ts => CStr (mean txt d ts)) tss)) (mean txt d tso)).
 Proof. exact list_of_token_strings. Qed.
@@ -208,22 +219,32 @@ Theorem whole_value_map_of_token_strings : forall def retrieve txt n ret d kvs t
   r_raw ret = CMap (map (fun kv => (fst kv, CStr (flatten (snd kv)))) kvs) ->
   as_string ret = Some (flatten tso) ->
   Forall (fun kv : str * list tok => tok_ok def retrieve txt d (snd kv)) kvs -> tok_ok def retrieve txt d tso ->
+  1 + total_spent def retrieve 999 (CExp (r_raw ret) (flatten tso)) <= max_expansions ->
   resolve_string def retrieve (ref_text n)
   = Ok (CExp (CMap (map (fun kv => (fst kv, CStr (mean txt d (snd kv)))) kvs)) (mean txt d tso)).
 Proof. exact map_of_token_strings. Qed.
 Print Assumptions whole_value_map_of_token_strings.
 
-(* without the bound the statement is false: 1000 distinct resolvable references are refused *)
-Theorem expansion_refines_tokens_unbounded_refuted : exists def retrieve val ts,
-  wf def retrieve val ts /\ plain val ts /\ has_text ts = true /\ nrefs ts = 1000 /\
-  resolve_string def retrieve (flatten ts) = Err [ETooMany].
-Proof. exact many_refs_l. Qed.
-Print Assumptions expansion_refines_tokens_unbounded_refuted.
+(* the members of a list and the text of an expandedValue share the expansion counter: for token strings the whole
+   run spends at most the SUM of the members' measures plus the text's (closed form; used by the list theorem above) *)
+Theorem shared_expansion_counter_bound : forall def retrieve txt f d tss tso,
+  Forall (tinv def retrieve txt d) tss -> tinv def retrieve txt d tso ->
+  total_spent def retrieve f (V tss tso) <= csum txt d tss + cost txt d tso.
+Proof. exact shared_counter_bound. Qed.
+Print Assumptions shared_expansion_counter_bound.
+
+
+(* regression of the repaired finding C12-MANYREFS: 1000 distinct resolvable references in one value resolve
+   (before fix 536781a48 this was the witness of expansion_refines_tokens_unbounded_refuted) *)
+Theorem many_distinct_references_resolve :
+  resolve_string w_def w_retrieve (flatten (w_tokens 1000)) = Ok (CStr (sem w_val (w_tokens 1000))).
+Proof. exact many_refs_resolve. Qed.
+Print Assumptions many_distinct_references_resolve.
 
 (* an escaped reference "$${n}" is kept as the text "${n}" wherever it stands *)
 Theorem escaped_ref_kept : forall def retrieve val pre n post,
   wf def retrieve val (pre ++ esc_ref n ++ post) -> plain val (pre ++ esc_ref n ++ post) ->
-  nrefs (pre ++ esc_ref n ++ post) < 1000 ->
+  nrefs (pre ++ esc_ref n ++ post) <= max_expansions ->
   resolve_string def retrieve (flatten pre ++ cDollar :: ref_text n ++ flatten post)
   = Ok (CStr (sem val pre ++ ref_text n ++ sem val post)).
 Proof. exact escaped_ref_kept_l. Qed.
@@ -251,8 +272,8 @@ Print Assumptions whole_value_string.
 (* when the recursion stops, the ORIGINAL TEXT kept beside a typed value has itself no expandable reference
    left (a string target receives fully expanded text): the result of expand_rec is the output of a round
    that reported "unchanged", and such a round on an expandedValue leaves its text as it was *)
-Theorem expand_rec_stops_on_unchanged_round : forall def retrieve f v v',
-  expand_rec def retrieve f v = Ok v' -> exists vk, expand_value def retrieve vk = Ok (v', false).
+Theorem expand_rec_stops_on_unchanged_round : forall def retrieve f used v v',
+  expand_rec def retrieve f used v = Ok v' -> exists vk, expand_value def retrieve vk = Ok (v', false).
 Proof. exact expand_rec_last_round. Qed.
 Print Assumptions expand_rec_stops_on_unchanged_round.
 
@@ -272,10 +293,12 @@ Theorem embedded_uses_text : forall def retrieve s uri ret repl,
 Proof. exact embedded_uses_text_l. Qed.
 Print Assumptions embedded_uses_text.
 
-Theorem provider_output_reexpanded : forall def retrieve f s uri ret repl,
+Theorem provider_output_reexpanded : forall def retrieve f used s uri ret repl,
   find_uri def s = Some uri -> uri <> s ->
   expand_uri def retrieve uri = Ok ret -> as_string ret = Some repl ->
-  expand_rec def retrieve (S f) (CStr s) = expand_rec def retrieve f (CStr (replace_unescaped s uri repl)).
+  used + count_unescaped s uri <= max_expansions ->
+  expand_rec def retrieve (S f) used (CStr s)
+  = expand_rec def retrieve f (used + count_unescaped s uri) (CStr (replace_unescaped s uri repl)).
 Proof. exact embedded_then_again. Qed.
 Print Assumptions provider_output_reexpanded.
 
@@ -298,7 +321,7 @@ Print Assumptions find_uri_first_unescaped.
    every round — in particular every reference cycle — is refused *)
 Theorem unbounded_expansion_refused : forall def retrieve (P : cv -> Prop),
   (forall v, P v -> exists v', expand_value def retrieve v = Ok (v', true) /\ P v') ->
-  forall fuel v, P v -> expand_rec def retrieve fuel v = Err [ETooMany].
+  forall fuel used v, P v -> expand_rec def retrieve fuel used v = Err [ETooMany].
 Proof. exact expand_rec_diverges. Qed.
 Print Assumptions unbounded_expansion_refused.
 
@@ -397,14 +420,21 @@ Theorem replace_unescaped_is_code :
 Proof. exact tie_replace_unescaped. Qed.
 Print Assumptions replace_unescaped_is_code.
 
+Theorem replace_count_is_code :
+  forallb (fun p : String.string * N =>
+             N.eqb (N.of_nat (count_unescaped (t2l (fst p)) (t2l go_replace_uri))) (snd p)) go_replace_count = true.
+Proof. exact tie_replace_count. Qed.
+Print Assumptions replace_count_is_code.
+
 Theorem unescape_is_code :
   forallb (fun p : String.string * String.string => str_eqb (unescape (t2l (fst p))) (t2l (snd p))) go_unescape = true.
 Proof. exact tie_unescape. Qed.
 Print Assumptions unescape_is_code.
 
-Theorem max_rounds_is_code : max_rounds = go_max_rounds.
-Proof. exact tie_max_rounds. Qed.
-Print Assumptions max_rounds_is_code.
+Theorem max_expansions_is_code :
+  N.of_nat max_expansions = go_max_expansions /\ (N.of_nat max_expansions + 1)%N = go_cycle_rounds.
+Proof. exact tie_max_expansions. Qed.
+Print Assumptions max_expansions_is_code.
 
 Theorem tables_are_populated :
   N.of_nat (length go_scheme_small) = 1555%N /\ N.of_nat (length go_new_location) = 1365%N /\
@@ -412,3 +442,30 @@ Theorem tables_are_populated :
   N.of_nat (length go_replace) = 5461%N /\ N.of_nat (length go_unescape) = 1023%N.
 Proof. exact tie_tables_populated. Qed.
 Print Assumptions tables_are_populated.
+
+(* ================= the clause checker and the model speak about the same thing ================= *)
+(* coq/C12/Clauses.v: [tokenize] is complete (a string with a well-formed tokenization is tokenized, to exactly that
+   token list), and whatever the MODEL produces passes the decidable clause checker that check.py runs over the
+   observed cases of the implementation — for every default scheme, provider table and list of sources whose single
+   source has distinct keys (a Go map). *)
+
+Theorem tokenizer_complete : forall def retrieve val ts,
+  wf def retrieve val ts -> tokenize (flatten ts) = Some ts.
+Proof. exact tokenize_complete. Qed.
+Print Assumptions tokenizer_complete.
+
+Theorem tokenizer_sound : forall s ts, tokenize s = Some ts -> flatten ts = s.
+Proof. exact tokenize_flatten. Qed.
+Print Assumptions tokenizer_sound.
+
+Theorem model_passes_clause_checker : forall def retrieve srcs,
+  keys_distinct srcs -> codes_cv def retrieve srcs (observe (resolve def retrieve srcs)) = [].
+Proof. exact model_passes_checker. Qed.
+Print Assumptions model_passes_clause_checker.
+
+(* the same at the level of the recorded case: [model_case] builds the case record from the model's own run the way
+   the harness builds it from the implementation's *)
+Theorem model_case_passes_prop_ok : forall cfg srcs,
+  keys_distinct (map of_w srcs) -> prop_ok (model_case cfg srcs) = true.
+Proof. exact model_case_passes. Qed.
+Print Assumptions model_case_passes_prop_ok.
